@@ -134,7 +134,9 @@ func (ex *Exec) step(st *State, in ssa.Instruction) {
 			ex.addrs[x] = a
 		}
 	case *ssa.Convert:
+		ex.curState = st
 		ex.setVal(x, ex.convert(x.X.Type(), x.Type(), ex.val(x.X)))
+		ex.curState = nil
 	case *ssa.MultiConvert:
 		unsup("multiconvert")
 	case *ssa.SliceToArrayPointer:
